@@ -24,6 +24,11 @@ let () = run_protocol [
   "cor_spherical", (function [h] -> VF (cor_spherical o (gf h)) | _ -> failwith "arity");
   "cor_circular", (function [h] -> VF (cor_circular o (gf h)) | _ -> failwith "arity");
   "cor_tplsimple", (function [nu; h] -> VF (cor_tplsimple o (gf nu) (gf h)) | _ -> failwith "arity");
+  "elem", (function [c; p; l; v; n; r] ->
+      let f = function None -> Float.nan | Some x -> x in
+      VV [f (correlation_elem o (cl c) (gf p) (gf l) (gf r)); f (covariance_elem o (cl c) (gf p) (gf l) (gf v) (gf r));
+          f (variogram_elem o (cl c) (gf p) (gf l) (gf v) (gf n) (gf r))]
+    | _ -> failwith "arity");
   "sd_gaussian", (function [d; l; k] -> VF (sd_gaussian o (gz d) (gf l) (gf k)) | _ -> failwith "arity");
   "sd_exponential", (function [d; l; k] -> VF (sd_exponential o (gz d) (gf l) (gf k)) | _ -> failwith "arity");
   "sd_matern", (function [d; l; nu; k] -> VF (sd_matern o (gz d) (gf l) (gf nu) (gf k)) | _ -> failwith "arity");
